@@ -58,14 +58,19 @@ def gen_card(rng):
     r = rng.random()
     if r < 0.5:
         return None
-    a, b = rng.randrange(1, 5), rng.randrange(1, 5)
-    shape = rng.randrange(4)
+    # bounds of one and of several digits (texts compare differently from numbers: "10" < "2"),
+    # an explicit minimum of 0, very large bounds
+    nums = [1, 2, 3, 4, 1, 2, 3, 4, 9, 10, 11, 12, 25, 99, 100, 1000, 10 ** 12]
+    a, b = rng.choice(nums), rng.choice(nums)
+    shape = rng.randrange(5)
     if shape == 0:
         return [None, b]
     if shape == 1:
         return [a, None]
     if shape == 2:
-        return [min(a, b), max(a, b) + 1]
+        return [min(a, b), max(a, b) + (1 if a == b else 0)]
+    if shape == 3:
+        return [0, b]
     return [a, a]
 
 
@@ -634,7 +639,7 @@ def mutate(root, ops, rng):
 class C01(fw.Check):
     prop = "C01"
     lean_targets = ["OdmlModel.Props.C01"]
-    obligations = ["C01." + t for t in ['csv_lib_roundtrip', 'csv_roundtrip', 'csv_empty_iff', 'csv_legacy_counterexample_comma', 'csv_legacy_counterexample_quote', 'csv_legacy_counterexample_newline', 'csv_legacy_counterexample_single_quote', 'csv_legacy_counterexample_single_bracket', 'csv_legacy_counterexample_empty', 'int_text_roundtrip', 'tuple_text_roundtrip', 'value_retyped', 'value_text_roundtrip', 'card_text_roundtrip', 'leaf_text_roundtrip', 'xml_vocab', 'xml_version', 'writer_keys_readable', 'xml_unrepresentable_chars', 'uncertainty_counterexample', 'blank_name_counterexample', 'tuple_item_counterexample', 'name_clash_counterexample']]
+    obligations = ["C01." + t for t in ['csv_lib_roundtrip', 'csv_roundtrip', 'csv_empty_iff', 'csv_legacy_counterexample_comma', 'csv_legacy_counterexample_quote', 'csv_legacy_counterexample_newline', 'csv_legacy_counterexample_single_quote', 'csv_legacy_counterexample_single_bracket', 'csv_legacy_counterexample_empty', 'int_text_roundtrip', 'tuple_text_roundtrip', 'value_retyped', 'value_text_roundtrip', 'card_text_roundtrip', 'leaf_text_roundtrip', 'xml_vocab', 'xml_version', 'writer_keys_readable', 'xml_unrepresentable_chars', 'uncertainty_counterexample', 'blank_name_counterexample', 'tuple_item_counterexample', 'name_clash_counterexample', 'prop_xml_roundtrip', 'sec_xml_roundtrip', 'xml_roundtrip', 'xml_roundtrip_lenient', 'xml_save_load', 'dtype_case_counterexample', 'xml_denote', 'xml_strict_lenient_agree', 'xml_denote_sec', 'xml_denote_prop', 'written_denotes_trimmed']]
     trusted_base = [
         "Lean 4.33.0 kernel; axioms propext, Classical.choice, Quot.sound only (audited per theorem)",
         "hand-written models lean/OdmlModel/Py/Csv.lean, Model/XmlCsv.lean, Model/Xml.lean, "
